@@ -67,6 +67,8 @@ var requiresTable = []reqRow{
 	{"(*internal/pkg/table.ROATable).Delete", lkShared, locks.W, "ROA table is mutated only in the exclusive management context"},
 	{"(*internal/pkg/table.ROATable).DeleteAll", lkShared, locks.W, "ROA table is mutated only in the exclusive management context"},
 	{"(*pkg/server.BgpServer).getBestFromLocalCallbackLocked", lkRR, locks.R, "caller holds the peer's route-refresh lock"},
+	{"(*internal/pkg/table.TableManager).Update", lkBucket, locks.W, "RIB update and fan-out form one critical section per prefix bucket"},
+	{"(*pkg/server.BgpServer).propagateUpdateToNeighbors", lkBucket, locks.W, "fan-out must see the RIB state produced by the update it follows"},
 	{"pkg/server.needToAdvertise", lkRR, locks.R, "the 'is this peer being advertised to' test must be atomic with the bookkeeping it guards: PeerDown publishes Idle and then clears the bookkeeping under the exclusive route-refresh lock"},
 	{"(*internal/pkg/table.Policy).Apply", lkPolicy, locks.R, "policy, statement and set objects are edited in place under the policy lock: an evaluation must see one configuration"},
 	{"(*internal/pkg/table.Statement).Apply", lkPolicy, locks.R, "policy, statement and set objects are edited in place under the policy lock: an evaluation must see one configuration"},
